@@ -626,6 +626,8 @@ class Interp:
                 return fi
             if name in c.attrs:
                 return self.fold_value(ValueRef(c.modname, name, c.attrs[name], owner=c))
+            if name in getattr(c, 'nested', {}):
+                return c.nested[name]
         return _MISSING
 
     def getattr(self, v, name, node=None):
@@ -899,6 +901,24 @@ class Interp:
             fr = self.call_stack[-1]
             recv = fr.receiver
             return SuperVal(recv, fr.func.cls)
+        if d == 'builtins.iter' and len(args) == 2:
+            # iter(callable, sentinel): the callable is called until it returns the sentinel
+            fn, sentinel = args
+
+            def until_sentinel():
+                while True:
+                    v = self.call(fn, [], {})
+                    if v is sentinel:
+                        return
+                    if is_abstract(v) and hasattr(v, 'abs_is') and sentinel is None:
+                        if self.truth(v.abs_is(self, None)):
+                            return
+                    elif not is_abstract(v) and not is_abstract(sentinel) and not isinstance(v, Obj) and v == sentinel:
+                        return
+                    yield v
+            return LazyIter(until_sentinel, 'iter(callable, sentinel)')
+        if d == 'builtins.iter' and len(args) == 1 and not is_abstract(args[0]) and isinstance(args[0], (list, tuple, str)):
+            return GenList(list(args[0]))
         if d == 'builtins.next':
             it = args[0]
             if is_abstract(it) and hasattr(it, 'abs_next'):
